@@ -32,6 +32,7 @@ pub fn aig_to_cells_techmap(aig: &AigModule, original: &GateModule) -> GateModul
         nets: Vec::new(),
         cells: Vec::new(),
         ffs: original.ffs.clone(),
+        ram_blocks: original.ram_blocks.clone(),
     };
     out.nets = original
         .nets
@@ -41,6 +42,7 @@ pub fn aig_to_cells_techmap(aig: &AigModule, original: &GateModule) -> GateModul
                 NetDriver::Const(b) => NetDriver::Const(b),
                 NetDriver::PortInput => NetDriver::PortInput,
                 NetDriver::FfQ(idx) => NetDriver::FfQ(idx),
+                NetDriver::RamRead(r, p, b) => NetDriver::RamRead(r, p, b),
                 _ => NetDriver::Undriven,
             },
             origin: n.origin,
@@ -162,9 +164,14 @@ pub fn aig_to_cells_techmap(aig: &AigModule, original: &GateModule) -> GateModul
         .filter(|p| matches!(p.dir, PortDir::Output | PortDir::Inout))
         .map(|p| p.nets.len())
         .sum();
+    let ff_count = out.ffs.len();
+    let mut ram_input_nets: Vec<NetId> = Vec::new();
     for (i, sink) in aig.sinks.iter().enumerate() {
         let src_net = resolve(&mut out, &mut pos_net, &mut neg_net, sink.edge);
-        if i < port_out_count {
+        if i >= port_out_count + ff_count {
+            // RAM input (see `aigify`): rewired below in the same order.
+            ram_input_nets.push(src_net);
+        } else if i < port_out_count {
             let target = sink.target;
             if src_net != target {
                 let cell_idx = out.cells.len();
@@ -180,6 +187,12 @@ pub fn aig_to_cells_techmap(aig: &AigModule, original: &GateModule) -> GateModul
             out.ffs[ff_idx].d = src_net;
         }
     }
+    let mut ram_input_iter = ram_input_nets.into_iter();
+    out.for_each_ram_input_net_mut(|n| {
+        if let Some(src) = ram_input_iter.next() {
+            *n = src;
+        }
+    });
     out
 }
 
